@@ -23,6 +23,7 @@
 #include <fcntl.h>
 #include <pthread.h>
 #include <semaphore.h>
+#include <sched.h>
 #include <stdint.h>
 #include <stdio.h>
 #include <stdlib.h>
@@ -46,6 +47,13 @@ static volatile int cur_op[MAXT], cur_phase[MAXT], finished_thread[MAXT];
 static volatile int step_op[MAXT], step_phase[MAXT];
 static char last_res[32];
 static int emitted[MAXT];
+/* free-running mode: outcome of every call of every thread (1 ok, 2 refused), and driver-level
+ * synchronisation ops: "await" = wait until some thread returned from ovni_proc_init,
+ * "sync" = rendezvous of the threads that have a sync op (so that they enter the next call together) */
+static volatile int outcome[MAXT][MAXOPS];
+static volatile int proc_inited = 0;
+static volatile int nsync_threads = 0, sync_arrived = 0;
+static volatile int cur_free_op[MAXT];
 
 static void gate(const char *res)
 {
@@ -75,6 +83,7 @@ void abort(void)
 		_exit(4);
 	if (free_running) {
 		finished_thread[me] = 2;
+		outcome[me][cur_free_op[me]] = 2;
 		pthread_exit(NULL);
 	}
 	finished_thread[me] = 2;
@@ -87,6 +96,14 @@ static void do_op(const char *op)
 {
 	if (!strcmp(op, "proc_init")) {
 		ovni_proc_init(1, "node0", 1000);
+		__atomic_store_n(&proc_inited, 1, __ATOMIC_SEQ_CST);
+	} else if (!strcmp(op, "await")) {
+		for (long i = 0; i < 2000000 && !__atomic_load_n(&proc_inited, __ATOMIC_SEQ_CST); i++)
+			sched_yield();
+	} else if (!strcmp(op, "sync")) {
+		__atomic_add_fetch(&sync_arrived, 1, __ATOMIC_SEQ_CST);
+		for (long i = 0; i < 20000000 && __atomic_load_n(&sync_arrived, __ATOMIC_SEQ_CST) < nsync_threads; i++)
+			;
 	} else if (!strcmp(op, "thread_init")) {
 		ovni_thread_init(100 + me + 1);
 	} else if (!strcmp(op, "emit")) {
@@ -141,8 +158,11 @@ static void *body_free(void *arg)
 {
 	me = (int) (intptr_t) arg;
 	pthread_barrier_wait(&bar);
-	for (int i = 0; i < nops[me]; i++)
+	for (int i = 0; i < nops[me]; i++) {
+		cur_free_op[me] = i;
 		do_op(prog[me][i]);
+		outcome[me][i] = 1;
+	}
 	finished_thread[me] = 1;
 	return NULL;
 }
@@ -192,13 +212,28 @@ int main(int argc, char *argv[])
 
 	pthread_t th[MAXT];
 	if (free_running) {
+		for (int t = 0; t < nthreads; t++)
+			for (int i = 0; i < nops[t]; i++)
+				if (!strcmp(prog[t][i], "sync")) {
+					nsync_threads++;
+					break;
+				}
 		pthread_barrier_init(&bar, NULL, (unsigned) nthreads);
 		for (int t = 0; t < nthreads; t++)
 			pthread_create(&th[t], NULL, body_free, (void *) (intptr_t) t);
 		for (int t = 0; t < nthreads; t++)
 			pthread_join(th[t], NULL);
-		for (int t = 0; t < nthreads; t++)
-			fprintf(lg, "{\"t\":%d,\"end\":%d}\n", t + 1, finished_thread[t]);
+		for (int t = 0; t < nthreads; t++) {
+			fprintf(lg, "{\"t\":%d,\"end\":%d,\"outs\":[", t + 1, finished_thread[t]);
+			int first = 1;
+			for (int i = 0; i < nops[t]; i++) {
+				if (!outcome[t][i])
+					break;
+				fprintf(lg, "%s%d", first ? "" : ",", outcome[t][i]);
+				first = 0;
+			}
+			fprintf(lg, "]}\n");
+		}
 		fclose(lg);
 		return 0;
 	}
